@@ -89,16 +89,29 @@ Proof. exact delete_dry_run. Qed.
 Print Assumptions C10_dry_run.
 
 Theorem C10_rejected_unchanged : forall v cf rq ds rsp ds',
-  delete_run v cf rq ds = (rsp, ds') -> rs_status rsp <> 200 -> ds' = ds.
-Proof. intros v cf rq ds rsp ds' H Hs. eapply delete_run_unchanged_unless_ok; [exact H|left; exact Hs]. Qed.
+  delete_run v cf rq ds = (rsp, ds') -> rs_status rsp <> 200 -> rs_status rsp <> 207 -> ds' = ds.
+Proof. intros v cf rq ds rsp ds' H Hs H7. eapply delete_run_unchanged_unless_ok; [exact H|left; split; assumption]. Qed.
 Print Assumptions C10_rejected_unchanged.
 
-(* Dry run and real run of the same confirmed request agree on status and count (current rewrite). *)
+(* Files of a measurement may lack a column the predicate names (schema evolution): the search sees
+   NULL there, the single-file rewrite does not bind and fails.  Such a run is REPORTED (207,
+   success = false, failed_files > 0), the count is still the number of rows that disappeared, no
+   FALSE row is lost and unaffected files are untouched - both variants, every dataset. *)
+Theorem C10_partial_reported : forall v cf rq ds rsp ds',
+  rq_class rq = WValid -> delete_run v cf rq ds = (rsp, ds') -> rs_status rsp = 207 ->
+  rs_success rsp = false /\ 0 < rs_failed rsp /\ rs_deleted rsp = nrows ds - nrows ds' /\
+  (forall r, In r (rows_of ds) -> eval r (rq_pred rq) = F -> In r (rows_of ds')) /\
+  (forall f, In f ds -> is_affected (rq_pred rq) f = false -> In f ds').
+Proof. exact delete_partial. Qed.
+Print Assumptions C10_partial_reported.
+
+(* Dry run and real run of the same confirmed request: when the real run succeeds, the dry run
+   succeeded too and reported the same count (current rewrite). *)
 Theorem C10_same_count : forall cf rq ds,
   rq_class rq = WValid -> rq_confirm rq = true ->
   let rd := fst (delete_run KeepIsNotTrue cf (with_dry rq true) ds) in
   let rr := fst (delete_run KeepIsNotTrue cf (with_dry rq false) ds) in
-  rs_status rd = rs_status rr /\ (rs_status rr = 200 -> rs_deleted rd = rs_deleted rr).
+  rs_status rr = 200 -> rs_status rd = 200 /\ rs_deleted rd = rs_deleted rr.
 Proof.
   intros cf rq ds Hc Hcf. apply delete_same_count_when; try assumption. intros; apply keep_repaired.
 Qed.
@@ -120,7 +133,7 @@ Theorem C10_same_count_guarded : forall cf rq ds,
   (forall f, In f ds -> is_affected (rq_pred rq) f = true -> forall r, In r (snd f) -> eval r (rq_pred rq) <> U) ->
   let rd := fst (delete_run KeepNotPred cf (with_dry rq true) ds) in
   let rr := fst (delete_run KeepNotPred cf (with_dry rq false) ds) in
-  rs_status rd = rs_status rr /\ (rs_status rr = 200 -> rs_deleted rd = rs_deleted rr).
+  rs_status rr = 200 -> rs_status rd = 200 /\ rs_deleted rd = rs_deleted rr.
 Proof.
   intros cf rq ds Hc Hcf Hn. apply delete_same_count_when; try assumption.
   intros f Hf Ha r Hr. apply keep_asis_no_null. eapply Hn; eassumption.
@@ -160,4 +173,14 @@ Example C10_eval_examples :
   eval r (PLike (OCol 2) [97;37]%N) = T /\ eval r (PLike (OCol 2) [95;98;95]%N) = T /\ eval r (PLike (OCol 2) [95;98]%N) = F /\
   eval r (PBetween (OCol 0) (OLit (VNum 4)) (OLit VNull)) = U /\ eval r (PBetween (OCol 0) (OLit (VNum 12)) (OLit VNull)) = F /\
   eval r (PIsNull (OCol 1)) = T /\ eval r (PIsNotTrue (PCmp CEq (OCol 1) (OLit (VNum 4)))) = T /\ eval r (PBool (OCol 3)) = T.
+Proof. vm_compute. repeat split; reflexivity. Qed.
+
+(* the 207 case exists: the second file has no column 1; x IS NULL is TRUE there through the union
+   read, the rewrite of that file does not bind; the first file is rewritten *)
+Example C10_partial_nonvacuous :
+  let ds := [(1%N, [[VNum 4; VNull]; [VNum 8; VNum 4]]); (2%N, [[VNum 12; VMissing]])] in
+  let rq := {| rq_class := WValid; rq_full := false; rq_pred := PIsNull (OCol 1); rq_dry := false; rq_confirm := true |} in
+  let '(rsp, ds') := delete_run KeepIsNotTrue w_cfg rq ds in
+  rs_status rsp = 207 /\ rs_failed rsp = 1 /\ rs_deleted rsp = 1 /\
+  ds' = [(1%N, [[VNum 8; VNum 4]]); (2%N, [[VNum 12; VMissing]])].
 Proof. vm_compute. repeat split; reflexivity. Qed.
